@@ -501,11 +501,20 @@ func (c *Client) reconnect(ctx context.Context) error {
 		_ = c.conn.Close()
 		c.conn = nil
 	}
+	// A closed client never opens a connection again: Close may run while a call is being set up or retried.
+	if c.closed.Load() {
+		return net.ErrClosed
+	}
 	stream, err := c.dialer(ctx)
 	if err != nil {
 		return err
 	}
 	c.conn = newConn(stream)
+	if c.closed.Load() {
+		// Close ran while we were dialing and could not see this connection: release it ourselves.
+		_ = c.conn.Close()
+		return net.ErrClosed
+	}
 	return nil
 }
 
